@@ -10,14 +10,20 @@ Tie: T + K.
      branch = a re-used out-profile is kept as it is; the else branch that deletes outdated entries / sets the incoming
      profile's non-root-hook entries / fills in missing root-hook entries = hand-over; any other shape is a broken tie.
      The model's `ensureOut` follows the value read, so the same check is green on a tree of either form.
+     Also read: the velocity solvers of a pass sequence (every write with its receiver resolved through the local
+     bindings, every use of `in_profile`, what `roll_passes` lists) and the two `__deepcopy__` methods as (path
+     condition, statement) lists + every definition of a copy / pickle protocol method in the package - certified
+     against the shape `Heap.solveVel` / `Heap.copyBody` assume.
   K  hand-written model lean/PyrollModel/Heap.lean (objects with identity, strong fields, weak back-links; solve as an
      effect trace; deep copy with memo; list edits).  One case = one HISTORY on real objects: build 1-2 caller
      profiles, grooves, roll templates (optionally looked at by the caller before use, optionally ONE Roll object for
      two passes), up to 6 units (two-/three-roll passes with rotation off / automatic / an explicit angle, transports,
      cooling pipes, 0-2 explicit rotators of any angle between two passes, disk elements, nested sequences), then solve
-     / re-solve (whole sequence or one unit) / walk through a sequence unit by unit / keep handles / deep copy /
-     append / replace / change a gap / read values on a profile, template, unit or roll / register a hook
-     implementation on a throw-away subclass.  After every op the harness compares with the model (same op lines)
+     / re-solve (whole sequence or one unit) / walk through a sequence unit by unit / run a velocity solver of a
+     sequence (`solve_velocities_forward` / `_backward`: solve entry points that take the caller's profile) / keep
+     handles / deep copy / append / replace / change a gap / give a unit an explicit value that is a callable holding
+     on to another unit of the line (bound method, functools.partial, callable object) / read values on a profile,
+     template, unit or roll / register a hook implementation on a throw-away subclass.  After every op the harness compares with the model (same op lines)
         * the names of the pre-existing objects whose `__dict__` / `__cache__` / content changed  vs  the write
           targets of the model's effect trace, and
         * the canonical aliasing graph of everything it holds a handle on (identities renamed by first appearance:
@@ -29,10 +35,12 @@ templates - identity AND deep value of `__dict__` and `__cache__`) unchanged by 
 sub-tree and profiles already returned unchanged by later ops; no mutable value (set/list/dict/ndarray) reachable
 from any profile ever changes content after it was first seen; a unit / pass roll outside the solved sub-tree keeps
 its entries and every value it has evaluated (its cache may only gain entries); no two objects share one hook value
-cache; a deep copy shares no unit / profile / roll / sub-unit list with the original and every back-reference inside
-the copy points into the copy.
+cache; a deep copy shares no unit / profile / roll / sub-unit list with the original - reachability follows attributes,
+containers, weak references AND callables given as values (`__self__` of a bound method, the arguments of a partial) -
+and every back-reference inside the copy points into the copy.
 """
 import copy
+import functools
 import logging
 import types
 import weakref
@@ -46,10 +54,14 @@ RULE = ("random histories on real objects: 1-2 caller profiles (round 30 mm / 55
         "units in rolling order (two-roll oval/round chain or three-roll chain, transports, cooling pipes, 0-2 explicit "
         "rotators of 45/90/180 (three-roll: 60/120/180) degrees between two passes, pass rotation False / True / an explicit "
         "angle completing the turn, 0-2 disk elements, roll templates read before use (30%) and one Roll object used for "
-        "two passes (25% two positions later, 50% of the replacements), optionally a nested sequence), then 3-9 actions: "
+        "two passes (25% two positions later, 50% of the replacements), optionally a nested sequence; in 30% 1-2 units get "
+        "an explicit value (`duration` of a transport, a custom entry) that holds on to a unit of the line: a callable - "
+        "bound method / functools.partial / callable object - or a list / dict naming it), then 3-9 actions: "
         "solve root / solve one unit / walk through a sequence unit by unit with the returned profiles / re-solve with "
-        "another or a returned profile / keep handles / deep copy (root or nested) and continue on copy and original / "
-        "append / replace / change gap / read values on a profile, a template, a unit, its roll or its profiles / "
+        "another or a returned profile / solve_velocities_forward or _backward of a sequence that lists a roll pass "
+        "(any first unit; as the first solve of fresh objects in 12%, else with a (sequence, profile) pair a plain solve "
+        "has shown to converge) / keep handles / deep copy (root or nested) and continue on copy and original / "
+        "append / replace / change gap / bind a callable / read values on a profile, a template, a unit, its roll or its profiles / "
         "register a classifier hook on a throw-away Transport subclass; ~8% of the cases contain a physically "
         "infeasible pass (solve raises inside pyroll: only the oracle runs from there). A case is non-trivial when it "
         "contains a re-solve, a deep copy or an edit after a solve; distinct by the op list.")
@@ -69,6 +81,12 @@ ASSUMPTIONS = [
     "changes no other; what the caller's own reading caches is an input of the model (observed on the implementation)",
     "a solve whose solution loops need more than 400 iterations in total (non-converging pass) ends the model side of "
     "that history (the interpreted model would need minutes); the oracle continues",
+    "the number of rounds of a velocity solver (first solve + passes of the velocity loop) is numeric: an input of the "
+    "model, taken from the implementation's log; which hook values the solver reads on the roll passes before the first "
+    "solve is a may-effect on the caches of the listed passes and their rolls",
+    "a callable given as an explicit value is modelled as an object holding ONE reference (what it is bound to); that "
+    "copy.deepcopy rebuilds bound methods / partials / objects from the deep copies of what they hold (CPython: "
+    "_deepcopy_method, __reduce_ex__) is part of the modelled-not-verified deepcopy protocol",
     "user processors and user hook functions are outside the statement (the core hands values on by reference; a user "
     "function that mutates a received set in place changes every profile sharing it - see notes/C12.md, O1)",
 ]
@@ -105,6 +123,56 @@ def is_atom(v):
     return isinstance(v, tuple) and all(is_atom(x) for x in v)
 
 
+# explicit values that are CALLABLES holding a reference to another object of the graph (the library evaluates a callable
+# explicit value lazily in Hook.__get__: `value()` or `value(instance)`)
+BOUND_FIELD = {"duration": 43, "pacing": 44}
+
+
+def pace_of(leader):
+    """bound with types.MethodType(pace_of, leader): a bound method of ANOTHER unit, no further parameter"""
+    return 1.0
+
+
+def pace_like(leader, follower):
+    """bound with functools.partial(pace_like, leader): one open parameter (the instance the value is asked on)"""
+    return 1.0
+
+
+class PaceFrom:
+    """a callable object that keeps the unit it takes its value from"""
+
+    def __init__(self, leader):
+        self.leader = leader
+
+    def __call__(self, follower):
+        return 1.0
+
+
+def callable_refs(v):
+    """the objects a callable value holds on to (bound method: `__self__`; partial: function, arguments; a callable
+    object: through its `__dict__`, which every traversal follows anyway), or None when `v` is no such callable"""
+    if isinstance(v, types.MethodType):
+        return [v.__self__]
+    if isinstance(v, functools.partial):
+        return [v.func] + list(v.args) + list((v.keywords or {}).values())
+    return None
+
+
+def bound_target(v):
+    """the one object an explicit value made by `op_bind` holds on to"""
+    if isinstance(v, types.MethodType):
+        return v.__self__
+    if isinstance(v, functools.partial):
+        return v.args[0] if v.args else None
+    if isinstance(v, PaceFrom):
+        return v.leader
+    if isinstance(v, list) and not hasattr(v, "_owner") and len(v) == 1 and hasattr(v[0], "__dict__"):
+        return v[0]
+    if isinstance(v, dict) and set(v) == {"leader"}:
+        return v["leader"]
+    return None
+
+
 def ident(v):
     if isinstance(v, weakref.ref):
         t = v()
@@ -127,6 +195,11 @@ def fp(v, depth=0):
         return ("geom", v.wkb)
     if isinstance(v, weakref.ref):
         return ("weak",)
+    if isinstance(v, types.MethodType):
+        # the value of a bound method: which function, bound to WHICH object (its repr would spell out the whole unit)
+        return ("bound", getattr(v.__func__, "__qualname__", "?"), id(v.__self__))
+    if isinstance(v, functools.partial):
+        return ("partial", getattr(v.func, "__qualname__", "?"), tuple(id(a) for a in v.args))
     if is_atom(v):
         return ("a", repr(v))
     return ("obj", type(v).__name__)
@@ -287,7 +360,14 @@ class Dumper:
             lc = self.cls(lst)
             lw = self.weak(lst, "_owner")
             sub = f"l{lc}(w={lw})[" + ",".join(self.unit(x, fuel - 1) for x in lst) + "]"
-        return f"u{c}:{self.lib.tag(u)}{{w={w},in={i},out={o},roll={r},sub={sub}}}"
+        cb = []
+        for name, code in BOUND_FIELD.items():
+            v = u.__dict__.get(name)
+            t = bound_target(v) if v is not None else None
+            if t is not None:
+                kc = self.cls(v)
+                cb.append(f"f{code}=k{kc}({self.cls(t)})")
+        return f"u{c}:{self.lib.tag(u)}{{w={w},in={i},out={o},roll={r},sub={sub},cb={','.join(cb) if cb else '-'}}}"
 
     def slot(self, o):
         k = self.lib.kind(o)
@@ -344,6 +424,7 @@ class IterLog(logging.Handler):
         super().__init__(level=logging.INFO)
         self.stack = []
         self.counts = []
+        self.tops = 0            # solve calls that are not nested in another solve
 
     def emit(self, rec):
         try:
@@ -351,6 +432,8 @@ class IterLog(logging.Handler):
         except Exception:
             return
         if msg.startswith("Started solving of"):
+            if not self.stack:
+                self.tops += 1
             self.stack.append(len(self.counts))
             self.counts.append(None)
         elif msg.startswith("Finished solving of") and self.stack:
@@ -544,6 +627,12 @@ class Oracle:
         work = [root]
         while work:
             o = work.pop()
+            refs = callable_refs(o)
+            if refs is not None and id(o) not in seen:
+                # a bound method / partial given as a value holds on to what it is bound to
+                seen[id(o)] = o
+                work.extend(refs)
+                continue
             if id(o) in seen or is_atom(o):
                 continue
             seen[id(o)] = o
@@ -562,7 +651,7 @@ class Oracle:
                 work.extend(d.values())
         return seen
 
-    def check_copy(self, orig, cp):
+    def check_copy(self, orig, cp, memo=None):
         pr = self.lib.pr
         ro, rc = self.reach(orig), self.reach(cp)
         names = ((pr.Unit, "unit"), (pr.Profile, "profile"), (pr.Roll, "roll"))
@@ -574,10 +663,17 @@ class Oracle:
                                           f"{getattr(o, 'label', '')!r} with the original"))
             if isinstance(o, list) and hasattr(o, "_owner"):
                 self.problems.append(("deepcopy-shares:sublist", "the deep copy shares a sub-unit list with the original"))
-        # back-references inside the copy (strongly reachable part)
+        # back-references inside the copy (strongly reachable part).  What is part of the copy only THROUGH a value that
+        # holds on to a unit (a copied bound method / partial / callable object / container naming a unit that is not
+        # below the copied one) belongs to the copy too; for such an object the objects this very deepcopy made ABOVE it
+        # (the copy of its parent, kept alive by the memo) are not "outside".  For everything on the structural paths
+        # (in/out-profile, roll, sub-unit lists and their items) the clause is unchanged
+        struct = self.reach_struct(cp)
         strong = self.reach_strong(cp)
         inside = set(strong)
+        created = {id(v) for k, v in memo.items() if k != id(memo)} if memo is not None else set()
         for o in strong.values():
+            via_holder = id(o) not in struct
             for attr, nm in (("_parent", "parent"), ("_unit", "unit"), ("_roll_pass", "roll_pass"), ("_owner", "owner")):
                 r = getattr(o, "__dict__", {}).get(attr)
                 if isinstance(r, weakref.ref):
@@ -585,16 +681,41 @@ class Oracle:
                     if t is not None and id(t) in ro and id(t) not in inside:
                         self.problems.append((f"deepcopy-backlink-outside:{nm}", f"{nm} back-reference of a copied "
                                               f"{type(o).__name__} points to the ORIGINAL {type(t).__name__}"))
-                    elif t is not None and id(t) not in inside and o is not cp:
+                    elif t is not None and id(t) not in inside and o is not cp \
+                            and not (via_holder and id(t) in created):
                         self.problems.append((f"deepcopy-backlink-outside:{nm}", f"{nm} back-reference of a copied "
                                               f"{type(o).__name__} points outside the copy"))
         return ro, rc
+
+    def reach_struct(self, root):
+        """the unit tree below `root` as the library builds it: units, their in/out-profiles and rolls (direct entries
+        that are hook hosts), their sub-unit lists and the listed units - no other values are entered"""
+        host = self.lib.pr.HookHost
+        seen = {}
+        work = [root]
+        while work:
+            o = work.pop()
+            if id(o) in seen:
+                continue
+            if isinstance(o, list) and hasattr(o, "_owner"):
+                seen[id(o)] = o
+                work.extend(list(o))
+            elif isinstance(o, host):
+                seen[id(o)] = o
+                work.extend(v for v in o.__dict__.values()
+                            if isinstance(v, host) or (isinstance(v, list) and hasattr(v, "_owner")))
+        return seen
 
     def reach_strong(self, root):
         seen = {}
         work = [root]
         while work:
             o = work.pop()
+            refs = callable_refs(o)
+            if refs is not None and id(o) not in seen:
+                seen[id(o)] = o
+                work.extend(refs)
+                continue
             if id(o) in seen or is_atom(o) or isinstance(o, weakref.ref):
                 continue
             seen[id(o)] = o
@@ -670,6 +791,7 @@ class World:
         self.ops = []
         self.tpl_of = {}          # slot of a pass -> slot of the roll template it was built from
         self.model_cut = False
+        self.converged = set()    # (unit slot, profile slot) of plain solves whose loops converged, since the last edit
 
     # -- plumbing -------------------------------------------------------------------------------
     def emit(self, line, expect):
@@ -854,6 +976,8 @@ class World:
         s = self.lib.pr.PassSequence([self.slots[k] for k in us], label="seq")
         k = self.reg(s)
         self.emit("seq " + (",".join(map(str, us)) if us else "-"), "ok")
+        # building the line is the caller's doing (the units get their parent): the oracle's baseline starts here
+        self.oracle.rebase(self.all_roots())
         return k
 
     # -- actions --------------------------------------------------------------------------------
@@ -887,6 +1011,8 @@ class World:
             self.model_ok = False
             self.model_cut = True
         k = self.reg(r)
+        if all(c is not None for c in h.counts) and sum(h.counts) <= MODEL_MAX_ITERATIONS:
+            self.converged.add((ku, kp))
         if self.model_ok:
             its = ",".join(str(c) for c in h.counts + [0])
             self.emit(f"solve {ku} {kp} {its}", f"{self.written(pre)} | left=1")
@@ -916,7 +1042,7 @@ class World:
             self.reg(x)
         if self.model_ok:
             self.emit(f"deepcopy {ku}", f"{self.written(pre)} | new={len(tree)}")
-        self.oracle.check_copy(u, c)
+        self.oracle.check_copy(u, c, memo)
         if u.parent is None:
             self.oracle.check_copy_live(u)
         self.finish_op("deepcopy", set())
@@ -926,6 +1052,7 @@ class World:
         q, u = self.slots[kq], self.slots[ku]
         pre = self.before() if self.model_ok else None
         q.append(u)
+        self.converged.clear()
         if self.model_ok:
             self.emit(f"append {kq} {ku}", self.written(pre))
         self.finish_op("append", set(), {id(q), id(u)})
@@ -935,6 +1062,7 @@ class World:
         pre = self.before() if self.model_ok else None
         old = q._subunits[i]
         q._subunits[i] = u
+        self.converged.clear()
         if self.model_ok:
             self.emit(f"replace {kq} {i} {ku}", self.written(pre))
         self.finish_op("replace", set(), {id(q), id(u), id(old)})
@@ -943,9 +1071,68 @@ class World:
         u = self.slots[ku]
         pre = self.before() if self.model_ok else None
         u.gap = 2e-3 * j
+        self.converged.clear()
         if self.model_ok:
             self.emit(f"gap {ku}", self.written(pre))
         self.finish_op("gap", set(), {id(u)})
+
+    def op_bind(self, ku, attr, how, kt):
+        """the caller gives unit `ku` an explicit value that holds on to unit `kt` of the same line: a CALLABLE (a bound
+        method of that unit, a functools.partial with it as argument, a callable object keeping it) or a plain container
+        (list / dict) naming it"""
+        u, t = self.slots[ku], self.slots[kt]
+        pre = self.before() if self.model_ok else None
+        if how == "method":
+            v = types.MethodType(pace_of, t)
+        elif how == "partial":
+            v = functools.partial(pace_like, t)
+        elif how == "object":
+            v = PaceFrom(t)
+        elif how == "list":
+            v = [t]                       # a plain container naming a unit of the line (`follows=[first_pass]`)
+        else:
+            v = {"leader": t}
+        setattr(u, attr, v)
+        if self.model_ok:
+            self.emit(f"bind {ku} {BOUND_FIELD[attr]} {kt}", self.written(pre))
+        self.finish_op("bind", set(), {id(u)})
+
+    def op_solvev(self, ku, kp, which, speed, area):
+        """`seq.solve_velocities_forward(profile, initial_speed)` / `seq.solve_velocities_backward(profile, final_speed,
+        final_cross_section_area)`: solve entry points of a sequence that take the caller's profile; nothing returned"""
+        u, p = self.slots[ku], self.slots[kp]
+        pre = self.before() if self.model_ok else None
+        allowed = self.subtree_profiles(u)
+        hosts = self.oracle.hosts_below(u)
+        name = "solve_velocities_" + which
+        err = None
+        with capture_iters() as h:
+            try:
+                if which == "forward":
+                    u.solve_velocities_forward(p, speed)
+                else:
+                    u.solve_velocities_backward(p, speed, area)
+            except Exception as e:
+                from driver import core
+                if not core._raised_in_impl(e):
+                    raise
+                err = e
+        if err is not None:
+            self.failed_solve = True
+            self.model_ok = False
+            self.oracle.check("failed-" + name, allowed | self.subtree_profiles(u), self.all_roots(),
+                              hosts | self.oracle.hosts_below(u))
+            return None
+        if self.model_ok and (any(c is None for c in h.counts) or h.stack):
+            self.model_ok = False
+        if self.model_ok and sum(h.counts) > MODEL_MAX_ITERATIONS:
+            self.model_ok = False
+            self.model_cut = True
+        if self.model_ok:
+            its = ",".join(str(c) for c in h.counts + [0])
+            self.emit(f"solvev {ku} {kp} {h.tops} {its}", f"{self.written(pre)} | left=1")
+        self.finish_op(name, allowed | self.subtree_profiles(u), hosts | self.oracle.hosts_below(u))
+        return True
 
     def op_inspect(self, k, names):
         """the caller reads values on an object he holds (a profile, a roll template, a unit): not an operation of
@@ -1082,10 +1269,32 @@ def gen_history(rng, w, n_actions, infeasible):
     if rng.random() < 0.25:
         # values read on the objects BEFORE they are handed to solve
         w.apply(("inspect", rng.choice(profs), some(rng, LOOK_PROFILE)))
+
+    def bind_somewhere(q):
+        """an explicit value of a unit below sequence `q` := a callable that holds on to a unit of the same line (itself,
+        a neighbour, an earlier or later position, the nested or the whole sequence)"""
+        below = [(w.find(u), lib.tag(u)) for u in w.oracle.units_below(w.slots[q]) if lib.tag(u) in (1, 2, 3, 4)]
+        below = [b for b in below if b[0] is not None]
+        hosts = [b for b in below if b[1] != 3]
+        if not hosts or not below:
+            return
+        kh, th = rng.choice(hosts)
+        kt, _ = rng.choice(below)
+        how = rng.choice(["method", "method", "partial", "partial", "object", "object", "list", "dict"])
+        attr = "duration" if th == 2 and how in ("method", "partial", "object") and rng.random() < 0.7 else "pacing"
+        w.apply(("bind", kh, attr, how, kt))
+
+    if rng.random() < 0.3:
+        for _ in range(rng.randrange(1, 3)):
+            bind_somewhere(root)
     for _ in range(n_actions):
         r = rng.random()
         all_roots = [root] + copies
-        if not solved or r < 0.26:
+        if not solved:
+            # the first action solves: mostly `solve`, sometimes a velocity solver on the fresh objects
+            fresh_v = r < 0.12 and not infeasible and any(lib.tag(u) == 1 for u in w.slots[root]._subunits)
+            r = 0.45 if fresh_v else 0.0
+        if r < 0.24:
             tgt = rng.choice(all_roots)
             src = rng.choice(profs + (returned[-2:] if rng.random() < 0.3 else []))
             k = w.apply(("solve", tgt, src))
@@ -1093,7 +1302,7 @@ def gen_history(rng, w, n_actions, infeasible):
                 break
             returned.append(k)
             solved = True
-        elif r < 0.37:
+        elif r < 0.34:
             # solve ONE unit (a later position) with what its predecessor handed over, or with a caller profile
             q = w.slots[rng.choice(all_roots)]
             lst = list(q._subunits)
@@ -1114,7 +1323,7 @@ def gen_history(rng, w, n_actions, infeasible):
             if k is None:
                 break
             returned.append(k)
-        elif r < 0.44:
+        elif r < 0.40:
             # the caller walks through a sequence himself: every unit solved on its own with the profile its
             # predecessor returned (what `_solve_subunits` does, but every hand-over passes through the caller's hands)
             q = w.slots[rng.choice(all_roots)]
@@ -1132,13 +1341,36 @@ def gen_history(rng, w, n_actions, infeasible):
                 src = k
             if failed:
                 break
-        elif r < 0.52:
+        elif r < 0.47:
+            # the other solve entry points of a sequence: the velocity solvers (forward from an initial speed, backward
+            # from a final speed and area), on any sequence that lists a roll pass directly - whatever its first unit is -
+            # with a caller profile or a returned one (also one that went through a solve before)
+            # A pass that does not converge (99 x 99 disk element solves) is solved again in every round of the velocity
+            # loop - minutes.  So: a (sequence, profile) pair that a plain solve of this history has shown to converge
+            # (no edit since), or - the velocity solver as the FIRST solve of fresh objects - the whole line with a
+            # caller profile it was laid out for
+            def lists_pass(k):
+                return any(lib.tag(u) == 1 for u in w.slots[k]._subunits)
+            pairs = sorted(pr_ for pr_ in w.converged if lib.tag(w.slots[pr_[0]]) == 3 and lists_pass(pr_[0]))
+            if not solved and not infeasible and lists_pass(root):
+                pairs = [(root, p_) for p_ in profs]
+            if not pairs or w.model_cut:
+                continue
+            tgt, src = rng.choice(pairs)
+            if rng.random() < 0.55:
+                k = w.apply(("solvev", tgt, src, "forward", rng.choice([0.5, 1.0, 2.0]), 0.0))
+            else:
+                k = w.apply(("solvev", tgt, src, "backward", rng.choice([1.0, 2.0, 4.0]), rng.choice([2e-4, 4e-4])))
+            if k is None:
+                break
+            solved = True
+        elif r < 0.54:
             q = w.slots[rng.choice(all_roots)]
             cand = [w.find(u) for u in w.oracle.units_below(q) if u.__dict__.get("out_profile") is not None]
             cand = [c for c in cand if c is not None]
             if cand:
                 w.apply(("keep", rng.choice(cand)))
-        elif r < 0.66:
+        elif r < 0.67:
             tgt = rng.choice(all_roots + ([nested] if nested is not None and rng.random() < 0.4 else []))
             c = w.apply(("deepcopy", tgt))
             if c is not None and w.slots[c].parent is None and tgt != nested:
@@ -1147,7 +1379,7 @@ def gen_history(rng, w, n_actions, infeasible):
             q = rng.choice(all_roots)
             k = w.apply(("transport", rng.choice([0, 1]), False, False))
             w.apply(("append", q, k))
-        elif r < 0.84:
+        elif r < 0.83:
             q = rng.choice(all_roots)
             lst = list(w.slots[q]._subunits)
             idx = [i for i, u in enumerate(lst) if lib.tag(u) in (1, 2)]
@@ -1166,12 +1398,14 @@ def gen_history(rng, w, n_actions, infeasible):
                 look = some(rng, LOOK_TEMPLATE) if rng.random() < 0.3 else []
                 k = w.apply(("pass", chain, p, rot, rng.choice([0, 1]), rng.choice([0.8, 1.2]), like, look))
             w.apply(("replace", q, i, k))
-        elif r < 0.90:
+        elif r < 0.88:
             q = w.slots[rng.choice(all_roots)]
             ps = [w.find(u) for u in w.oracle.units_below(q) if lib.tag(u) == 1]
             ps = [p for p in ps if p is not None]
             if ps:
                 w.apply(("gap", rng.choice(ps), rng.choice([0.8, 0.9, 1.1, 1.2])))
+        elif r < 0.91:
+            bind_somewhere(rng.choice(all_roots))
         elif r < 0.96:
             # the caller looks at something he holds
             what = rng.choice(["profile", "template", "unit", "unit"])
@@ -1195,10 +1429,11 @@ def gen_history(rng, w, n_actions, infeasible):
 
 def nontrivial(ops):
     names = [o[0] for o in ops]
-    if "solve" not in names:
+    solves = [i for i, n in enumerate(names) if n in ("solve", "solvev")]
+    if not solves:
         return False
-    first = names.index("solve")
-    return any(n in ("solve", "deepcopy", "append", "replace", "gap", "hook") for n in names[first + 1:])
+    first = solves[0]
+    return any(n in ("solve", "solvev", "deepcopy", "append", "replace", "gap", "hook", "bind") for n in names[first + 1:])
 
 
 # symbolic histories: (label or None, op); "$x" refers to the slot an earlier labelled op returned
@@ -1263,6 +1498,27 @@ CORPUS = [
      (None, ("solve", "$s", "$p")), (None, ("keep", "$t")), (None, ("solve", "$s", "$q")), (None, ("keep", "$a")),
      (None, ("solve", "$s", "$p")), (None, ("solve", "$ls", "$p")), (None, ("solve", "$l", "$q")),
      (None, ("solve", "$ls", "$p")), (None, ("solve", "$t", "$q"))],
+    # the velocity solvers as solve entry points: a line that starts with a transport (roller table ahead of the first
+    # stand) and a nested one that starts with a rotator; forward and backward, the SAME caller profile used for a second
+    # run with another speed, a returned profile handed in, a plain solve in between
+    [("p", ("profile", "A", ["material"])), ("t0", ("transport", 0, False, False)), ("a", ("pass", "A", 0, True, 0, 1.0)),
+     ("t", ("transport", 1, False, False)), ("r", ("rotator", 90)), ("b", ("pass", "A", 1, False, 0, 1.0)),
+     ("n", ("seq", ["$r", "$b"])), ("s", ("seq", ["$t0", "$a", "$t", "$n"])),
+     (None, ("solvev", "$s", "$p", "forward", 1.0, 0.0)), (None, ("solvev", "$s", "$p", "forward", 2.0, 0.0)),
+     ("x", ("solve", "$s", "$p")), (None, ("solvev", "$s", "$p", "backward", 2.0, 4e-4)),
+     (None, ("solvev", "$n", "$p", "forward", 1.0, 0.0)), ("c", ("deepcopy", "$s")),
+     (None, ("solvev", "$c", "$x", "forward", 0.5, 0.0)), (None, ("solve", "$s", "$p"))],
+    # explicit values that are callables holding on to another unit of the line (bound method, functools.partial,
+    # callable object; bound to an earlier / a later position, to the nested sequence), deep copies of the whole line and
+    # of the nested part, edits and solves of original and copy afterwards
+    [("p", ("profile", "A", ["my_tags"])), ("a", ("pass", "A", 0, True, 0, 1.0)), ("t", ("transport", 1, False, False)),
+     ("b", ("pass", "A", 1, True, 0, 1.0)), ("t2", ("transport", 0, False, True)), ("n", ("seq", ["$b", "$t2"])),
+     ("s", ("seq", ["$a", "$t", "$n"])), (None, ("bind", "$t", "duration", "method", "$a")),
+     (None, ("bind", "$b", "pacing", "partial", "$a")), (None, ("bind", "$a", "pacing", "object", "$n")),
+     (None, ("solve", "$s", "$p")), ("c", ("deepcopy", "$s")), (None, ("gap", "$a", 0.9)), (None, ("solve", "$s", "$p")),
+     (None, ("solve", "$c", "$p")), (None, ("deepcopy", "$n")), (None, ("bind", "$t2", "duration", "object", "$t")),
+     (None, ("deepcopy", "$c")), (None, ("bind", "$b", "pacing", "list", "$t2")), (None, ("deepcopy", "$s")),
+     (None, ("solvev", "$s", "$p", "backward", 2.0, 4e-4))],
 ]
 
 
@@ -1354,10 +1610,9 @@ def run(ctx):
             ctx.violation(key, text, {"ops": r.ops[:r.first_at.get(key, len(r.ops))], "problem": text,
                                       "how": "driver/props/c12.py run_ops(ops): apply the ops to real objects; "
                                              "World.oracle.problems lists what the oracle found"})
-        lean_lines.append("reset")
-        lean_lines.extend(l for l, _ in r.lines)
+        lean_lines.append(["reset"] + [l for l, _ in r.lines])
     if use_model:
-        out = ctx.lean_model(MODEL, lean_lines)
+        out = _run_model_chunks(ctx, lean_lines)
         pos = 0
         for r in records:
             pos += 1
@@ -1377,6 +1632,28 @@ def run(ctx):
                                   "first_difference": _first_diff(exp, got)})
         if pos != len(out):
             ctx.disagreement("model output length mismatch", {"expected": pos, "got": len(out)})
+
+
+def _run_model_chunks(ctx, per_history):
+    """the model lines of all histories through the interpreted driver: histories are independent (`reset`), so they are
+    dealt out to a few driver processes running side by side (wall time only; the output is put together in order)"""
+    n = 4 if len(per_history) >= 40 else 1
+    size = (len(per_history) + n - 1) // n
+    chunks = [per_history[i:i + size] for i in range(0, len(per_history), size)]
+    flat = [[l for h in ch for l in h] for ch in chunks]
+    if len(flat) <= 1:
+        return ctx.lean_model(MODEL, flat[0] if flat else [])
+    from concurrent.futures import ThreadPoolExecutor
+    with ThreadPoolExecutor(max_workers=len(flat)) as ex:
+        outs = list(ex.map(lambda ls: ctx.lean_model(MODEL, ls), flat))
+    res = []
+    for ls, o in zip(flat, outs):
+        if len(o) != len(ls):
+            # keep the positions of the later chunks right
+            ctx.disagreement("model output length mismatch", {"expected": len(ls), "got": len(o)})
+            o = (o + ["<missing>"] * len(ls))[:len(ls)]
+        res.extend(o)
+    return res
 
 
 def _first_diff(a, b):
